@@ -931,3 +931,16 @@ func (r *Rig) StoreDigest(ctx sdk.Context, store string) string {
 
 // StoreNames lists the mounted KV store names of the ten irismod modules.
 var IrismodStores = []string{"coinswap", "farm", "htlc", "mt", "nft", "oracle", "random", "record", "service", "token"}
+
+// BuildGenesis returns the default genesis of this rig (validator, funded accounts, mutator applied).
+func (r *Rig) BuildGenesis() map[string]json.RawMessage { return r.buildGenesis() }
+
+// BuildTxRaw signs msgs with a's key whatever signers the messages require (used for forged-signer txs);
+// the local sequence is not advanced.
+func (r *Rig) BuildTxRaw(a *Account, memo string, msgs ...sdk.Msg) []byte {
+	bz, err := r.signTx(a, a.Seq, memo, msgs...)
+	if err != nil {
+		panic(err)
+	}
+	return bz
+}
